@@ -21,7 +21,10 @@ def regen_slots():
     return slots.regenerate()
 
 def _signals(seed):
-    return [gen.make_signal(np.random.default_rng([seed, i]), family=['bursty', 'sum', 'asym'][i], fs=250, f0=10, n=1200)['sig'] for i in range(3)]
+    sg = [gen.make_signal(np.random.default_rng([seed, i]), family=['bursty', 'sum', 'asym'][i], fs=250, f0=10, n=1200)['sig'] for i in range(3)]
+    if seed % 3 == 0: sg[1] = sg[1].astype(np.float32)          # a single-precision recording: the object analyses it as the functional API does (in its own precision)
+    if seed % 3 == 1: sg[2] = np.round(sg[2] * 1000).astype(np.int16)      # ADC counts
+    return sg
 
 def _kv(d):
     return '[' + ','.join('[%s,%s]' % (k, proto.enc_rat(v)) for k, v in d.items()) + ']'
@@ -123,7 +126,7 @@ def corpus(ctx):
 def generate(ctx):
     rng = ctx.rng
     cases = []
-    for i in range(ctx.scale(50, 500)):
+    for i in range(ctx.scale(100, 600)):
         method = str(rng.choice(['cycles', 'cycles', 'amp']))
         u = rng.random()
         if method == 'cycles':
@@ -151,7 +154,7 @@ def generate(ctx):
         cases.append(dict(seed=int(rng.integers(1 << 30)), method=method, center=str(rng.choice(['peak', 'trough'])), th=th,
                           fek=(None if rng.random() < 0.6 else {'filter_kwargs': {'n_cycles': 4}, 'boundary': 5}), rs=bool(rng.random() < 0.8), ops=ops))
     # BycycleGroup: models mirror df_features and sigs position by position (pairwise different signals, refits on other shapes)
-    for i in range(ctx.scale(8, 60)):
+    for i in range(ctx.scale(14, 60)):
         fits = [dict(shape=[int(rng.integers(1, 4))] if rng.random() < 0.35 else [int(rng.integers(1, 4)), int(rng.integers(1, 4))], n_jobs=int(rng.choice([1, 2])))
                 for _ in range(int(rng.integers(1, 3)))]
         for f in fits:
@@ -168,6 +171,7 @@ def _group(c):
         sigs = np.zeros(tuple(shp) + (500,))
         for idx in np.ndindex(*shp):
             sigs[idx] = gen.make_signal(np.random.default_rng([c['seed'], k] + list(idx)), family=['bursty', 'sum', 'asym'][sum(idx) % 3], fs=250, f0=10, n=500)['sig']
+        if (c['seed'] + k) % 4 == 3: sigs = sigs.astype(np.float32)       # single-precision recordings
         axis = {'0': 0, '1': 1, 'a01': (0, 1), 'None': None}[f['axis']]
         if (c['seed'] + k) % 2 == 0:
             # a fit that is REJECTED half-way first (an axis the array's dimension does not allow, on the same array): whatever it leaves behind, the
